@@ -84,10 +84,12 @@ pub fn replay(cases: &[Value], out: &mut Out) {
 		for chunk in chunks {
 			handles.push(tokio::spawn(async move {
 				let rig = Rig::new(RigCfg::default());
+				// the same server with a message buffer of one: for WebSocket exchanges under back-pressure
+				let bp = Rig::new(RigCfg { buf_cap: 1, ..Default::default() });
 				let mut verdicts = vec![];
 				for (i, c) in chunk {
 					for k in 0..ks {
-						verdicts.push((i, k, one_case(&rig, i, k, &c).await));
+						verdicts.push((i, k, one_case(&rig, &bp, i, k, &c).await));
 					}
 				}
 				verdicts
@@ -101,7 +103,7 @@ pub fn replay(cases: &[Value], out: &mut Out) {
 	});
 }
 
-async fn one_case(rig: &Rig, i: usize, k: usize, c: &Value) -> (Vec<(String, Value)>, Value) {
+async fn one_case(rig: &Rig, bp: &Rig, i: usize, k: usize, c: &Value) -> (Vec<(String, Value)>, Value) {
 	let mut rng = rng_for(i, k);
 	let case = &c["case"];
 	let kind = c["kind"].as_str().unwrap();
@@ -154,14 +156,31 @@ async fn one_case(rig: &Rig, i: usize, k: usize, c: &Value) -> (Vec<(String, Val
 		if mode == "binary" && as_text.is_some() && rng.random_range(0..4) != 0 {
 			continue; // binary framing of valid text: a quarter of the cases
 		}
+		// one exchange in twelve happens while the connection's outbound side is saturated: a 32 KiB pipe, a message buffer of one
+		// and three 150 kB results the peer has not read - the message must be treated exactly the same
+		let pressed = (i + k) % 12 == 7;
+		let rig = if pressed { bp } else { rig };
 		rig.take_log();
-		let mut ws = match rig.ws().await {
+		let connected = if pressed {
+			let (stop, handle) = jsonrpsee_server::stop_channel();
+			let svc = rig.svc(stop.clone());
+			WsPeer::connect_with_pipe(svc, stop, handle, &[], 32 * 1024).await
+		} else {
+			rig.ws().await
+		};
+		let mut ws = match connected {
 			Ok(w) => w,
 			Err(e) => {
 				problems.push((format!("ws:{lbl}:connect-failed"), json!({"err": e})));
 				break;
 			}
 		};
+		if pressed {
+			for j in 0..3 {
+				ws.send_text(&format!(r#"{{"jsonrpc":"2.0","id":"press-{j}","method":"big","params":[150000,"ascii"]}}"#)).await;
+			}
+			tokio::time::sleep(std::time::Duration::from_millis(15)).await;
+		}
 		let sent = if mode == "text" { ws.send_text(as_text.unwrap()).await } else { ws.send_binary(&bytes).await };
 		let probe_id = format!("probe-{i}-{k}");
 		let probe = format!(r#"{{"jsonrpc":"2.0","id":"{probe_id}","method":"echo","params":["probe"]}}"#);
@@ -169,7 +188,8 @@ async fn one_case(rig: &Rig, i: usize, k: usize, c: &Value) -> (Vec<(String, Val
 		let (mut frames, hit) = ws.recv_until(WAIT, |v| v["id"] == json!(probe_id)).await;
 		let (rest, clean) = ws.stop_and_drain(WAIT).await;
 		frames.extend(rest);
-		let wlog: Vec<Value> = rig.take_log().into_iter().filter(|e| e["params"] != json!(["probe"])).collect();
+		let wlog: Vec<Value> = rig.take_log().into_iter().filter(|e| e["params"] != json!(["probe"]) && e["h"] != "big").collect();
+		frames.retain(|f| serde_json::from_str::<Value>(f).map(|v| !v["id"].as_str().map(|s| s.starts_with("press-")).unwrap_or(false)).unwrap_or(true));
 		if !sent || !sent2 || !hit {
 			problems.push((format!("ws-{mode}:{lbl}:connection-not-serving-later-messages"), json!({"frames": frames, "sent": sent, "probe_sent": sent2})));
 			continue;
